@@ -364,7 +364,7 @@ Proof.
   - rewrite andb_true_iff. intros [_ H]. unfold mem_str in H. simpl in H.
     rewrite !orb_true_iff in H. destruct H as [H | [H | H]]; try discriminate;
       apply String.eqb_eq in H; subst; simpl; auto.
-  - rewrite orb_true_iff, !andb_true_iff. intros [[H _] | [H _]]; apply String.eqb_eq in H; subst; simpl; auto.
+  - rewrite orb_true_iff, !andb_true_iff. intros [[H _] | H]; apply String.eqb_eq in H; subst; simpl; auto.
 Qed.
 
 (* a non-boolean flag's report is one of two words and depends on the value only through "equals the default" *)
